@@ -101,6 +101,13 @@ def curated():
                                                "relations": [["before", "A", "C", True], ["before", "B", "C", True]]}
     D["ready_dependent_chain"] = {"items": [T("T0"), T("T1"), T("T2"), T("T3")], "relations": [["before", "T0", "T1", True], ["before", "T1", "T2", True], ["before", "T0", "T3", True], ["before", "T2", "T3", True]]}
     D["method_in_if"] = {"items": [T("T0", [If([{"k": "method", "name": "MN", "iw": 0, "ow": 1, "ready": "free", "body": [wit("comb")]}])]), T("T1", [call("MN")])]}
+    # callers of one exclusive method in different modules: alternatives of control structures of *different* modules are not exclusive
+    # (the callers sit at the same position of their modules' control trees, so only the module id tells the paths apart)
+    D["cross_module_if_else"] = {"items": [T("T0", [If([call("M0")])]), T("T1", [If([wit("comb")], els=[call("M0")])], mod=1), M("M0")]}
+    D["cross_module_switch_fsm"] = {"items": [T("T0", [Sw(1, [("0", [call("M0")]), ("1", [wit("comb")])])]), T("T1", [Fsm([wit("comb")], [call("M0")])], mod=1),
+                                             T("T2", [Sw(1, [("0", [wit("comb")]), ("1", [call("M0")])])], mod=1), T("T3", [Sw(1, [("0", [wit("comb")]), ("1", [call("M0")])])]), M("M0", mod=1)]}
+    D["cross_module_via_methods"] = {"items": [M("A", [If([call("M0")])], iw=0, ow=0), M("B", [If([], els=[call("M0")])], iw=0, ow=0, mod=1), T("T0", [call("A")]), T("T1", [call("B")], mod=1), M("M0")]}
+    D["cross_module_conflict_relation"] = {"items": [T("T0", [If([wit("comb")])]), T("T1", [If([], els=[wit("comb")])], mod=1)], "relations": [["conflict", "T0", "T1", "L"]]}
     D["three_way"] = {"items": [M("A"), M("B"), M("C"), T("T0", [call("A"), call("B")]), T("T1", [call("B"), call("C")]), T("T2", [call("C"), call("A")])]}
     D["rets_as_args"] = {"items": [M("A", iw=2, ow=2, out="inc"), M("B", iw=2, ow=2), T("T0", [call("A"), call("B", arg=["ret", 0])])]}
     D["uncalled"] = {"items": [M("A"), M("U", [call("A")], iw=0, ow=0), T("T0", [call("A")])]}
@@ -204,6 +211,8 @@ def random_spec(rng, max_t=3, max_m=3, allow_relations=True, allow_nested=True):
             t["ready"] = "one"
         if allow_nested and rng.random() < 0.2:
             t["body"].append({"k": "trans", "name": f"TN{i}", "ready": "free", "body": rblock(callable_all, 1, 2)})
+        if rng.random() < 0.3:
+            t["mod"] = 1
         items.append(t)
         tnames.append(f"T{i}")
     rels = []
